@@ -743,7 +743,7 @@ def cascade(draw, n_min=2, n_max=4, max_vars=4, allow_partition=True, ranks=RANK
 
 
 @st.composite
-def case_cascade(draw, max_extent=5, with_spacetime=False, **kw):
+def case_cascade(draw, max_extent=5, with_spacetime=False, allow_flatten=True, **kw):
     spec, part_info = draw(cascade(**kw))
     rt = draw(runtime(spec, max_extent=max_extent))
     for out, (expr, vs) in part_info.items():
@@ -752,7 +752,7 @@ def case_cascade(draw, max_extent=5, with_spacetime=False, **kw):
         carried = [v.upper() for v in input_carried_vars(expr)]
         single = len(expr["terms"]) == 1
         wide = [f for f in expr["terms"][0]["factors"] if "t" in f and len(f["idx"]) >= 2] if single else []
-        if wide and draw(st.integers(0, 3)) == 0:
+        if allow_flatten and wide and draw(st.integers(0, 3)) == 0:
             # flatten two ranks of one tensor of this Einsum (the output is flattened too when it carries both)
             T = draw(st.sampled_from(wide))
             pair = list(draw(st.permutations([ie[0][1].upper() for ie in T["idx"]])))[:2]
